@@ -1980,7 +1980,10 @@ class PseudoNetCDFFile(PseudoNetCDFSelfReg, object):
         if exclude:
             varkeys = list(set(list(self.variables)).difference(varkeys))
 
-        varkeys = varkeys + [k for k in self.getCoords() if k not in varkeys]
+        varkeys = varkeys + [
+            k for k in self.getCoords()
+            if k not in varkeys and k in self.variables
+        ]
 
         if inplace:
             outf = self
